@@ -22,7 +22,7 @@ RangeOf(s) == {s[i] : i \in DOMAIN s}
 \* MBCore with the blur interval of the line: the summaries only depend on Blur
 Core(b) == INSTANCE MBCore WITH Apps <- {"a"}, AppOrder <- <<"a">>, Sides <- {}, Conns <- {}, Class1 <- {}, Class2 <- {},
              Class3 <- {}, LongNames <- {}, OtherNames <- {}, ClientMbox <- {}, GenMbox <- <<>>, EXP <- 11, PERIOD <- 5,
-             AllowList <- TRUE, UsageOn <- TRUE, Blur <- b, Welcome <- "w0"
+             AllowList <- TRUE, UsageOn <- TRUE, Blur <- b, Welcome <- "w0", BadMoods <- {}
 
 \* the documented precedence, stated directly
 DocMb(n, moods, pruned) ==
